@@ -496,7 +496,7 @@ func c12SymN(c *Ctx, gen, mode string, p *profile.Profile, ms plugin.MappingSour
 func runC12(c *Ctx) {
 	r := c.R
 	// 1. whole-Symbolize cases: random valid profile x mode x script x sources
-	n := c.Budget(540, 6000)
+	n := c.Budget(450, 6000)
 	for k := 0; k < n; k++ {
 		p := c12Profile(r, false)
 		ms := c12Sources_(r, p)
@@ -549,7 +549,7 @@ func runC12(c *Ctx) {
 		c12Sym(c, "repaired-F12-F13", "remote", p, ms, []c12Answer{{Body: "0x1200 <lambda>\n"}})
 	}
 	// 4a. the same Symbolizer symbolizes the same profile twice
-	for k := 0; k < c.Budget(100, 1500); k++ {
+	for k := 0; k < c.Budget(80, 1500); k++ {
 		p := c12Profile(r, false)
 		ms := c12Sources_(r, p)
 		mode := PickS(r, []string{"", "local", "remote", "force", "local:force", "remote:force", "none", "demangle=full", "fastlocal"})
@@ -625,4 +625,6 @@ func runC12(c *Ctx) {
 		}()
 		c.Case("looks", L(S("looks"), S(name)), Bool(symbolizer.VerifC12LooksLikeDemangled(name)), name != "", "op:looks")
 	}
+	// 6. the end-to-end layer: driver.PProf, an interactive session, the web handlers (c12e2e.go)
+	runC12E2E(c)
 }
